@@ -118,6 +118,15 @@ Theorem C15_encoder_reset_clears_cdata_flags : forall e,
 Proof. exact reset_clears_cdata_flags. Qed.
 Print Assumptions C15_encoder_reset_clears_cdata_flags.
 
+(* output and output_header are dropped whatever flow_mode is (flow_mode itself is a setting and is kept): in Flow Mode
+   the header is built only when output_header is NULL, so a header kept across a reset would prefix the next document *)
+Theorem C15_encoder_reset_clears_output_header : forall e,
+  (e_output_header (enc_reset e) = None /\ e_output (enc_reset e) = None) /\
+  (e_output_header (enc_reset_fixed e) = None /\ e_output (enc_reset_fixed e) = None) /\
+  e_flow_mode (enc_reset_fixed e) = e_flow_mode e.
+Proof. exact reset_clears_output_header. Qed.
+Print Assumptions C15_encoder_reset_clears_output_header.
+
 (* any history of setter calls and (set tree, encode, reset) rounds on ONE encoder: each tree gives the result it
    gives on a newly created encoder carrying the caller's settings; the settings are the caller's; for every body *)
 Theorem C15_encoder_history_fixed : forall (tree out : Type) t_id t_lang t_charset
